@@ -239,8 +239,13 @@ func cmdCheck(args []string) {
 			if t.mode == "B2" {
 				// B2-lite: only the obligations written for this mode (labels b2-*) are claimed; everything else is SEQ's business
 				var keep []*Obligation
+				safety := fr.VC.fc != nil && len(fr.VC.fc.clauses("b2_safety")) > 0
 				for _, o := range fr.VC.obls {
 					if strings.Contains(o.Name, ":b2-") {
+						keep = append(keep, o)
+					} else if safety && (o.Kind == "bounds" || o.Kind == "nil" || o.Kind == "div") && !strings.Contains(o.Name, "@in:") {
+						// functions declared b2_safety: their own run-time safety obligations must also hold under the interference model
+						o.Name = strings.Replace(o.Name, "#"+o.Kind+":", "#"+o.Kind+":b2-", 1)
 						keep = append(keep, o)
 					}
 				}
